@@ -81,7 +81,24 @@ def extra(ctx, res):  # noqa: F811
                         x = strip_refs(tt[2])
                         if x[0] == "field" and x[3] == "skipped" and x[1][0] == "field" and x[1][3] == "1":
                             okf = True
-        if not okf:
+        # ... or one fused pass in which a skipped field leaves the iteration early (`if attrs.skipped { continue }`):
+        # switches on the current field's own `skipped` flag
+        skip_edges = set()   # (switch bb, target taken when skipped)
+        for sbb in sorted(v.reach):
+            i2 = v.switch_info(sbb)
+            if not i2 or i2["kind"] != "bool":
+                continue
+            d = v.blocks[sbb]["term"]["discr"]
+            dt = strip_refs(canon(v, v.origin(d)))
+            neg = False
+            if dt[0] == "unop" and dt[1] == "Not":
+                dt = strip_refs(dt[2])
+                neg = True
+            if dt[0] == "field" and dt[3] == "skipped":
+                tgt = v.edge_target(i2, not neg)
+                if tgt is not None:
+                    skip_edges.add((sbb, tgt))
+        if not okf and not skip_edges:
             fs.append(fnd("C07.G1", v, "the second pass (keys, error types, conversions) does not run over exactly the non-skipped fields of the same sorted vector"))
         # every push onto the zipped vectors is unconditional inside its loop: one push per iteration
         loops = v.loops()
@@ -116,6 +133,8 @@ def extra(ctx, res):  # noqa: F811
                     if x == h:
                         continue
                     for y in v.succ[x]:
+                        if (x, y) in skip_edges and name in ("key_names", "field_errs", "missing_field_errors", "field_from_fns", "field_from_errors"):
+                            continue   # a skipped field has no key / error type / conversion: it may leave the iteration here
                         if y == h:
                             # reached the back edge without passing the push: only legal through `?` error returns (which leave the loop)
                             skipped = True
